@@ -468,8 +468,7 @@ def run_check(prop_id, tier, seed, replay=None, shard=None, out=None, cases=None
             rel = os.path.join("replays", fname)
             with open(os.path.join(VERIF_DIR, rel), "w") as fp:
                 json.dump({"property": prop_id, "signature": sig, "message": msg,
-                           "count": info["count"], "case": codec.encode(case)}, fp, indent=1,
-                          sort_keys=True)
+                           "count": info["count"], "case": codec.encode(case)}, fp, indent=1)  # (key order of maps is part of a case)
             replay_paths[sig] = rel
 
     missing = [lab for lab in getattr(mod, "REQUIRED", []) if not stats.labels.get(lab)]
